@@ -567,3 +567,77 @@ fn c09_cheating_prover() {
     }
     finish("c09_cheating_prover", cases, bad);
 }
+
+// ---- a STARK with a lookup argument (logUp): column 0 is looked up in column 1 with multiplicities in column 2; one transition constraint of degree 3 so
+// that the STARK has a quotient (the in-crate example declares degree 0, for which the verifier checks nothing) ----
+#[derive(Copy, Clone)]
+struct Lk<F2: RichField + Extendable<D2>, const D2: usize> { _p: PhantomData<F2> }
+
+impl<F2: RichField + Extendable<D2>, const D2: usize> Stark<F2, D2> for Lk<F2, D2> {
+    type EvaluationFrame<FE2, P, const D3: usize> = StarkFrame<P, P::Scalar, 3, 1> where FE2: FieldExtension<D3, BaseField = F2>, P: PackedField<Scalar = FE2>;
+    type EvaluationFrameTarget = StarkFrame<ExtensionTarget<D2>, ExtensionTarget<D2>, 3, 1>;
+    fn constraint_degree(&self) -> usize { 3 }
+    fn lookups(&self) -> Vec<crate::lookup::Lookup<F2>> {
+        vec![crate::lookup::Lookup { columns: vec![crate::lookup::Column::single(0)], table_column: crate::lookup::Column::single(1), frequencies_column: crate::lookup::Column::single(2), filter_columns: vec![Default::default()] }]
+    }
+    fn eval_packed_generic<FE2, P, const D3: usize>(&self, vars: &Self::EvaluationFrame<FE2, P, D3>, yield_constr: &mut ConstraintConsumer<P>)
+    where FE2: FieldExtension<D3, BaseField = F2>, P: PackedField<Scalar = FE2> {
+        let l = vars.get_local_values(); let n = vars.get_next_values(); let pi = vars.get_public_inputs();
+        yield_constr.constraint_first_row(l[0] - pi[0]);
+        // column 0 counts up; the factor l[2] * l[2] only raises the degree to 3 (column 2 is constant 1 on honest traces)
+        yield_constr.constraint_transition((n[0] - l[0] - P::ONES) * l[2] * l[2]);
+    }
+    fn eval_ext_circuit(&self, _builder: &mut CircuitBuilder<F2, D2>, _vars: &Self::EvaluationFrameTarget, _yield_constr: &mut RecursiveConstraintConsumer<F2, D2>) { unimplemented!("native checks only") }
+}
+
+fn lk_rows(n: usize, x0: u64) -> Vec<[F; 3]> {
+    // column 1 is a rotation of column 0: the same multiset
+    (0..n).map(|i| [F::from_canonical_u64(x0 + i as u64), F::from_canonical_u64(x0 + ((i + 1) % n) as u64), F::ONE]).collect()
+}
+
+// C09 / C18 on a STARK with lookups: honest traces are accepted, a looked-up value that is not in the table column is not, and malformed optional parts
+// of the opening set are refused cleanly
+#[test]
+fn c09_c18_lookup_stark() {
+    log::set_max_level(log::LevelFilter::Trace);
+    let mut bad = Vec::new();
+    let mut cases = 0usize;
+    let config = StarkConfig::standard_fast_config();
+    let stark = Lk::<F, D> { _p: PhantomData };
+    let verdict = |p: StarkProofWithPublicInputs<F, C, D>| -> &'static str { match catch_unwind(AssertUnwindSafe(|| verify_stark_proof(stark, p, &config, None))) { Ok(Ok(())) => "ACCEPTED", Ok(Err(_)) => "rejected", Err(_) => "PANICKED" } };
+    let prove_it = |rows: Vec<[F; 3]>, pi: F| -> Result<StarkProofWithPublicInputs<F, C, D>, String> {
+        match catch_unwind(AssertUnwindSafe(|| prove::<F, C, Lk<F, D>, D>(stark, &config, trace_rows_to_poly_values(rows), &[pi], None, &mut TimingTree::default()))) { Ok(Ok(p)) => Ok(p), Ok(Err(e)) => Err(format!("{e}")), Err(_) => Err("prover panicked".into()) } };
+    for n in [16usize, 64] {
+        let rows = lk_rows(n, 100);
+        cases += 1;
+        let proof = match prove_it(rows.clone(), rows[0][0]) { Ok(p) => p, Err(e) => { bad.push(format!("lookup STARK, {n} rows: honest trace: {e}")); continue; } };
+        if verdict(proof.clone()) != "ACCEPTED" { bad.push(format!("lookup STARK, {n} rows: honest proof {}", verdict(proof.clone()))); continue; }
+        // a looked-up value that the table column does not contain; a wrong multiplicity
+        for (what, r, c, v) in [("looked-up value outside the table", n / 2, 0usize, F::from_canonical_u64(99999)), ("table entry changed", 3, 1, F::from_canonical_u64(77777)), ("multiplicity 2 for an entry looked up once", 5, 2, F::TWO)] {
+            let mut bad_rows = rows.clone(); bad_rows[r][c] = v; cases += 1;
+            if let Ok(p) = prove_it(bad_rows, rows[0][0]) { if verdict(p) == "ACCEPTED" { bad.push(format!("lookup STARK, {n} rows: trace with {what} produced an accepted proof")); } }
+        }
+        // proof surgery on the lookup-specific parts
+        let mut muts: Vec<(&str, Box<dyn Fn(&mut StarkProofWithPublicInputs<F, C, D>)>)> = Vec::new();
+        muts.push(("auxiliary opening altered", Box::new(|p| { if let Some(a) = p.proof.openings.auxiliary_polys.as_mut() { a[0] += FE::ONE; } })));
+        muts.push(("auxiliary next-row opening altered", Box::new(|p| { if let Some(a) = p.proof.openings.auxiliary_polys_next.as_mut() { let l = a.len() - 1; a[l] += FE::ONE; } })));
+        muts.push(("auxiliary cap altered", Box::new(|p| { if let Some(c) = p.proof.auxiliary_polys_cap.as_mut() { c.0[0].elements[0] += F::ONE; } })));
+        muts.push(("auxiliary openings removed", Box::new(|p| p.proof.openings.auxiliary_polys = None)));
+        muts.push(("auxiliary next-row openings removed", Box::new(|p| p.proof.openings.auxiliary_polys_next = None)));
+        muts.push(("auxiliary cap removed", Box::new(|p| p.proof.auxiliary_polys_cap = None)));
+        muts.push(("auxiliary openings truncated", Box::new(|p| { if let Some(a) = p.proof.openings.auxiliary_polys.as_mut() { a.pop(); } })));
+        muts.push(("auxiliary next-row openings extended", Box::new(|p| { if let Some(a) = p.proof.openings.auxiliary_polys_next.as_mut() { a.push(FE::ONE); } })));
+        muts.push(("auxiliary openings emptied", Box::new(|p| p.proof.openings.auxiliary_polys = Some(vec![]))));
+        muts.push(("ctl_zs_first = Some(vec![]) on a STARK without cross-table lookups", Box::new(|p| p.proof.openings.ctl_zs_first = Some(vec![]))));
+        muts.push(("ctl_zs_first = Some([1]) on a STARK without cross-table lookups", Box::new(|p| p.proof.openings.ctl_zs_first = Some(vec![F::ONE]))));
+        muts.push(("quotient openings removed", Box::new(|p| p.proof.openings.quotient_polys = None)));
+        for (what, m) in &muts {
+            let mut p2 = proof.clone(); m(&mut p2);
+            if format!("{:?}", p2.proof.openings) == format!("{:?}", proof.proof.openings) && format!("{:?}", p2.proof.auxiliary_polys_cap) == format!("{:?}", proof.proof.auxiliary_polys_cap) { continue; }
+            cases += 1;
+            let v = verdict(p2);
+            if v != "rejected" { bad.push(format!("lookup STARK, {n} rows: proof with {what} -> {v}")); }
+        }
+    }
+    finish("c09_c18_lookup_stark", cases, bad);
+}
